@@ -42,9 +42,9 @@ def run(ctx):
     ctx.instance("R-LOCKSPLIT.lock_sites", nlocks)
     ctx.floor("R-LOCKSPLIT.lock_sites", 12)
     ctx.instance("R-ABA.relink.pushes", nrel)
-    ctx.floor("R-ABA.relink.pushes", 4)
+    ctx.floor("R-ABA.relink.pushes", 3)
     ctx.floor("R-ABA.cas_sites", 8)
-    ctx.floor("R-ABA.cas_pops", 4)
+    ctx.floor("R-ABA.cas_pops", 3)
     ctx.floor("R-ABA.push.sites", 1)
     ctx.floor("R-ATOM.atomic_sites", 100)
     return dict(
